@@ -205,6 +205,15 @@ func rulesC07(p *Prog, r *Report) {
 					}
 					continue
 				}
+				if c := t.Call.StaticCallee(); c != nil {
+					base := c.Name()
+					if o := c.Origin(); o != nil {
+						base = o.Name()
+					}
+					if base == "ContainsFunc" || base == "IndexFunc" || base == "Contains" {
+						continue // a stateless search over the whole slice
+					}
+				}
 				bad = append(bad, "allowed passed to "+t.Call.Value.Name())
 			case *ssa.IndexAddr:
 				if isRangeIndexOf(t.Index, isc.Params[1]) != nil {
